@@ -641,7 +641,13 @@ func valid(p *Program) bool {
 	}
 	eachConst(p, func(fi int, t *Type, c *Const) {
 		walkConst(p, fi, t, c, func(c *Const, ct *Type, st *idlgen.Struct, sf int) {
-			if st == nil && c.Kind == idlgen.CIdent && resolveIdent(p, fi, ct, c.Text).kind == 0 {
+			if st != nil {
+				if _, fd := st.FieldByName(c.Text); fd == nil || c.Kind != idlgen.CString {
+					ok = false // key of a struct literal that names no member
+				}
+				return
+			}
+			if !constFits(p, fi, ct, c) {
 				ok = false
 			}
 		})
@@ -659,6 +665,104 @@ func valid(p *Program) bool {
 		}
 	}
 	return ok
+}
+
+// baseClass: coarse class of a dereferenced type for checking literals: i(nteger) b(ool) d(ouble) s(tring/binary)
+// L(ist/set) M(ap) e(num) S(truct) or 0.
+func baseClass(p *Program, t *Type) byte {
+	d := deref(p, t)
+	if d == nil {
+		return 0
+	}
+	switch d.Kind {
+	case idlgen.Bool:
+		return 'b'
+	case idlgen.Byte, idlgen.I16, idlgen.I32, idlgen.I64:
+		return 'i'
+	case idlgen.Double:
+		return 'd'
+	case idlgen.String:
+		return 's'
+	case idlgen.Binary:
+		return 'B'
+	case idlgen.List, idlgen.Set:
+		return 'L'
+	case idlgen.Map:
+		return 'M'
+	case idlgen.Named:
+		switch refKind(p, d.Named) {
+		case 'e':
+			return 'e'
+		case 's':
+			return 'S'
+		}
+	}
+	return 0
+}
+
+// constFits: the expression c is of a form thrift accepts where a value of type t is expected (the shrinker must
+// not manufacture ill-typed programs: thriftgo does not type-check identifiers in constant expressions).
+func constFits(p *Program, fi int, t *Type, c *Const) bool {
+	k := baseClass(p, t)
+	if k == 0 {
+		return false
+	}
+	switch c.Kind {
+	case idlgen.CInt:
+		return k == 'i' || k == 'd' || k == 'b' || k == 'e'
+	case idlgen.CDouble:
+		return k == 'd'
+	case idlgen.CString:
+		return k == 's' || k == 'B'
+	case idlgen.CList:
+		return k == 'L'
+	case idlgen.CMap:
+		return k == 'M' || k == 'S'
+	case idlgen.CIdent:
+		r := resolveIdent(p, fi, t, c.Text)
+		switch r.kind {
+		case 'b':
+			return k == 'b' || k == 'i' || k == 'd'
+		case 'v':
+			d := deref(p, t)
+			return k == 'e' && d.Named.File == r.file && d.Named.Name == r.name
+		case 'c':
+			cd := findConst(p.Files[r.file], r.name)
+			ck := baseClass(p, cd.Type)
+			if ck != k {
+				return false
+			}
+			if k == 'e' || k == 'S' {
+				a, b := deref(p, t), deref(p, cd.Type)
+				return a.Named.File == b.Named.File && a.Named.Name == b.Named.Name
+			}
+			if k == 'L' || k == 'M' {
+				return typeText(p, deref(p, t)) == typeText(p, deref(p, cd.Type))
+			}
+			return true
+		}
+		return false
+	}
+	return false
+}
+
+// typeText: a dereferenced, file-independent rendering of a type (for comparing container types).
+func typeText(p *Program, t *Type) string {
+	d := deref(p, t)
+	if d == nil {
+		return "?"
+	}
+	switch d.Kind {
+	case idlgen.List:
+		return "list<" + typeText(p, d.Elem) + ">"
+	case idlgen.Set:
+		return "set<" + typeText(p, d.Elem) + ">"
+	case idlgen.Map:
+		return "map<" + typeText(p, d.Key) + "," + typeText(p, d.Elem) + ">"
+	case idlgen.Named:
+		return fmt.Sprintf("%d.%s", d.Named.File, d.Named.Name)
+	}
+	return fmt.Sprint(int(d.Kind))
 }
 
 // size is the measure the shrinker decreases.
